@@ -37,6 +37,12 @@ CHECKS = {
     "C03": dict(cat="model_checking", ref="§4 C03", tech="TLA+ ISAAC / ISAAC-64 in reference shape (Isaac.tla) evaluated by TLC on recorded IsaacRng / Isaac64Rng traces",
                 text="Every recorded word of the real generators (unit-bit seeds x the whole first block, structured/random seeds x 3 blocks, long runs) must equal Jenkins' reference isaac()/isaac64() after randinit(TRUE) on the zero-extended seed, consumed from the end of each block; seed_from_u64(0) is validated as the unseeded reference in C09.",
                 note=TB + "; seeds and positions are a corpus (ISAAC is non-linear)"),
+    "C08": dict(cat="model_checking", ref="§4 C08", tech="TLC model checking of the seeding protocol (Seeding.tla) + TLC-checked bijection certificate of the SplitMix64 finalizer (ALG_Seed) + trace validation of the real constructors against the same operators",
+                text="The protocol (zero remap, redraw loop) is explored exhaustively in a small world with a negative control; the certificate shows that for all 2^64 arguments seed_from_u64 of the xoshiro family cannot produce the zero state and yields the 8 arguments with a zero seed word; the real constructors (zero / almost-zero seeds of every size, adversarial u64s, sources with leading zero blocks) are validated by state image, == and outputs.",
+                note=TB + "; on the real types seeds/sources are a corpus"),
+    "C09": dict(cat="model_checking", ref="§4 C09", tech="TLC model checking of the seeding protocol with fallible sources (Seeding.tla) + trace validation of seed_from_u64 / from_rng / try_from_rng of all 19 seedable types against the documented expansions (SplitMix64, PCG32, ISAAC key layout) written in TLA+",
+                text="Error propagation, cursor advance and redraw discipline are model-checked exhaustively in a small world; on the real types every constructor's result is compared by TLC with the generator denoted by the documented expansion (state image and outputs), the source cursor and call log are checked, and fallible sources failing at calls 1..3 (partial, sticky) must yield the error and no generator.",
+                note=TB + "; u64 arguments, byte streams and failure positions on the real types are a corpus"),
 }
 
 NOT_YET = {}
